@@ -234,7 +234,7 @@ C(name, ok) == IF ok THEN {} ELSE {name}
 
 FailsPair(e) ==
   LET exp == AbsEq(e.a, e.b) IN
-  C("Unclassified", {e.eab, e.eba, e.nab, e.nba, e.eaa, e.ebb, e.h,
+  C("Unclassified", {e.eab, e.eba, e.nab, e.nba, e.eaa, e.ebb, e.h, e.hs,
                      e.inset, e.indict} \subseteq Obs
                     /\ exp \in {"T", "F", "U", "X"})
   \cup C("Eq.IgnoresCaseAndOrder", exp # "T" \/ (e.eab = "T" /\ e.eba = "T"))
@@ -250,6 +250,10 @@ FailsPair(e) ==
   \cup C("Hash.SetDictMembership",
          exp = "X" \/ e.eab \notin {"T", "F"}
          \/ (e.inset = e.eab /\ e.indict = e.eab))
+  \* e.h compares the hash values taken BEFORE the comparisons and the
+  \* membership tests were evaluated; e.hs: hash(a) and hash(b) taken again
+  \* AFTER them are the same values (==, !=, `in` are read-only observations)
+  \cup C("Hash.StableUnderObservation", e.hs = "T")
 
 FailsTriple(e) ==
   C("Unclassified", {e.eab, e.ebc, e.eac, e.hab, e.hbc, e.hac} \subseteq Obs)
@@ -283,8 +287,19 @@ FailsCopy(e) ==
 (* in particular a == b => hash(a) == hash(b) and set / dict membership.   *)
 (* The history itself needs no verdict beyond being one we understand.     *)
 (***************************************************************************)
+(* READ-ONLY OBSERVATIONS are part of a history as well: they change no     *)
+(* public attribute, so the object after them still has to satisfy every   *)
+(* law against a freshly built object (which nobody has looked at yet) -   *)
+(* in particular hash(a) == hash(b), with the hash values taken before a   *)
+(* and b are compared.  Classes of observations (the concrete call is      *)
+(* chosen by the harness):                                                 *)
+(*   "read"     attribute getters, len / iteration / `in` of a dictionary  *)
+(*   "render"   repr(), str(), tocimxml(), tocimxmlstr(), tomof()          *)
+(*   "compare"  ==, != against an equal and against another object         *)
+(*   "dup"      copy(), copy.copy, copy.deepcopy, pickle.dumps of it       *)
+ObsActs == {"read", "render", "compare", "dup"}
 HistActs == {"hash", "setitem", "delitem", "pop", "popitem", "clear", "update",
-             "setdefault", "set", "drop"}
+             "setdefault", "set", "drop"} \cup ObsActs
 FailsHist(e) ==
   FailsPair(e)
   \cup C("Unclassified", \A i \in 1..Len(e.acts) : e.acts[i].v \in HistActs)
